@@ -991,7 +991,8 @@ func recvCh[T any](
 
 func (broker *Broker) handleSendError(payload sts.Payload, nPartsReceived int) sts.Payload {
 	nErr := 0
-	var n int
+	// The server may already have said how many (leading) parts it received
+	n := nPartsReceived
 	var err error
 	for {
 		if broker.shouldStopNow() {
